@@ -216,7 +216,11 @@ scpi_bool_t SCPI_Parse(scpi_t * context, char * data, int len) {
 
             composeCompoundCommand(&cmd_prev, &state->programHeader);
 
-            if (findCommandHeader(context, state->programHeader.ptr, state->programHeader.len)) {
+            if (state->numberOfParameters < 0) {
+                /* program data of this unit are broken, e.g. "CMD 1," - do not execute it */
+                SCPI_ErrorPush(context, SCPI_ERROR_INVALID_STRING_DATA);
+                result = FALSE;
+            } else if (findCommandHeader(context, state->programHeader.ptr, state->programHeader.len)) {
 
                 context->param_list.lex_state.buffer = state->programData.ptr;
                 context->param_list.lex_state.pos = context->param_list.lex_state.buffer;
@@ -1465,6 +1469,7 @@ int scpiParser_parseAllProgramData(lex_state_t * state, scpi_token_t * token, in
 
 
     for (result = 1; result != 0; result = scpiLex_Comma(state, &tmp)) {
+        lex_state_t before = *state;
         token->len += result;
 
         result = scpiParser_parseProgramData(state, &tmp);
@@ -1473,7 +1478,12 @@ int scpiParser_parseAllProgramData(lex_state_t * state, scpi_token_t * token, in
         } else {
             token->type = SCPI_TOKEN_UNKNOWN;
             token->len = 0;
-            paramCount = -1;
+            /* no data at all is not an error (what follows is checked by the caller),
+             * no data after a separator or incomplete data which swallowed the input is */
+            scpiLex_WhiteSpace(&before, &tmp);
+            if ((paramCount != 0) || (before.pos != state->pos)) {
+                paramCount = -1;
+            }
             break;
         }
         paramCount++;
